@@ -657,7 +657,10 @@ def noise_of(case, ncall):
 def classify(case, nb, site, touched_nan):
     tool = case["tool"]
     if case["family"] == "hist" and case.get("weights") is not None and site in ("sensitivity", "budget"):
-        return "C07:histogram:weights"
+        w_old = float(case["weights"][nb["rec"]])
+        w_new = float(nb["w"]) if nb.get("w") is not None else w_old
+        if not (0 <= w_old <= 1 and 0 <= w_new <= 1):     # weights in [0, 1] cannot move a count by more than 1
+            return "C07:histogram:weights"
     if tool in ("nanmean", "nanvar", "nanstd") and touched_nan and site in ("sensitivity", "budget"):
         return f"C07:{tool}:size-counts-nans"
     if tool == "nansum" and touched_nan and site in ("sensitivity", "budget"):
@@ -671,6 +674,7 @@ def direct_check(case, nb, forced_seed=1):
     data = {"case": case, "neighbour": nb, "forced_seed": forced_seed}
     factor = 1.0
     touched_nan = False
+    nan_cols = np.zeros(0, dtype=bool)
     qcols1 = qcols2 = []
     if fam == "hist":
         s1 = [list(map(float, row)) for row in case["sample"]]
@@ -688,7 +692,8 @@ def direct_check(case, nb, forced_seed=1):
         mode, red, red_shape, kept, _ = layout(case)
         arr2 = replace_record(arr, red, nb["rec"], [unjson_float(x) for x in nb["new"]])
         M1, M2 = records_matrix(arr, red), records_matrix(arr2, red)
-        touched_nan = bool(np.isnan(M1).any() or np.isnan(M2).any())
+        nan_cols = np.isnan(M1).any(axis=0) | np.isnan(M2).any(axis=0)
+        touched_nan = bool(nan_cols.any())
         if fam == "quant":
             qcols1, qcols2 = quantile_columns(case, arr), quantile_columns(case, arr2)
         c1, o1, e1 = run_tool(case, arr=arr, forced_seed=forced_seed)
@@ -763,6 +768,8 @@ def direct_check(case, nb, forced_seed=1):
             worst = (ratio, i)
         if not ratio <= 1 + SLACK:
             data["offending"] = {"index": i, "cls": a.cls, "input_D": va, "input_D'": vb, "sensitivity": sens, "epsilon": e_i}
+            if fam == "stat" and len(c1) == len(nan_cols):
+                touched_nan = bool(nan_cols[i])          # NaNs in THIS cell's sub-array (D or D')
             return (classify(case, nb, "sensitivity", touched_nan),
                     f"{case['tool']}: invocation {i} ({a.cls}) input moves {va!r} -> {vb!r} (|d|={d:.6g}) but sensitivity={sens:.6g} "
                     f"(ratio {ratio:.6g})", data), info
@@ -1029,6 +1036,16 @@ def case_key(case, nb):
             nb.get("kind"), case.get("weights") is not None, str(case.get("bins"))[:30], str(case.get("quant"))[:30])
 
 
+def report(ctx, sig, what, data, cap=4):
+    """at most `cap` violations per signature reach the runner (its list is bounded: a flood of one recorded defect
+    must not crowd out a different one); the rest are only counted"""
+    seen = ctx.__dict__.setdefault("_sig_counts", {})
+    seen[sig] = seen.get(sig, 0) + 1
+    ctx.count("violations:" + sig)
+    if seen[sig] <= cap:
+        ctx.violation(sig, what, data)
+
+
 def one_case(ctx, r, case, n_nb, lines, pending):
     """direct check on n_nb neighbours + queue the correspondence lines of the base run"""
     fam = case["family"]
@@ -1061,7 +1078,7 @@ def one_case(ctx, r, case, n_nb, lines, pending):
         ctx.count("neighbour_pairs")
         ctx.count("invocations_paired", info.get("calls", 0))
         if v:
-            ctx.violation(v[0], v[1], v[2])
+            report(ctx, v[0], v[1], v[2])
 
 
 FIXED_WITNESS = {
@@ -1111,10 +1128,10 @@ def check(ctx):
         v, info = direct_check(case, nb)
         ctx.case(case_key(case, nb))
         if v:
-            ctx.violation(v[0], v[1], v[2])
-    n_stat = ctx.budget(260, 2600)
-    n_quant = ctx.budget(90, 700)
-    n_hist = ctx.budget(110, 900)
+            report(ctx, v[0], v[1], v[2])
+    n_stat = ctx.budget(1400, 9000)
+    n_quant = ctx.budget(450, 2400)
+    n_hist = ctx.budget(550, 3000)
     for i in range(n_stat):
         tool = STAT_TOOLS[i % len(STAT_TOOLS)]
         mn = max_n if i % 5 else min(max_n, 8)
